@@ -298,6 +298,19 @@ impl Ranges {
             return Err(serde::de::Error::custom(Error::EmptyRange));
         }
 
+        // an explicit default (`null`) can't be rendered, and a branch has nothing to default to.
+        let has_default = ranges
+            .try_for_each_value(|value| match value {
+                ParsedValue::Default => Err(()),
+                _ => Ok(()),
+            })
+            .is_err();
+        if has_default {
+            return Err(serde::de::Error::custom(
+                "the value of a range can't be an explicit default (null)",
+            ));
+        }
+
         Ok(ranges)
     }
 
